@@ -611,6 +611,8 @@ def run(ctx):
     quick = ctx.quick
     plan = [("base", 4), ("ext", 3)] if quick else [("base", 5), ("ext", 4)]
     agg = {"stats": {}, "states": set(), "found": {}}
+    w0 = World()
+    agg["states"].add(w0.state_key(w0.snapshot()))      # the root state
     upper_checked = 0
     for alph_name, depth in plan:
         explore(ctx, alph_name, depth, agg)
